@@ -78,7 +78,7 @@ def parse_header(path):
     txt = open(path).read()
     txt = re.sub(r'/\*.*?\*/', '', txt, flags=re.S)
     out = {}
-    for m in re.finditer(r'struct\s+(SMock\w+_c)\s*\{(.*?)\n\};', txt, re.S):
+    for m in re.finditer(r'struct\s+(SMock(?:ActualCall|ExpectedCall|Support)_c)\s*\{(.*?)\n\};', txt, re.S):
         tag, body = m.group(1), m.group(2)
         if tag == 'SMockValue_c': continue
         fields = []
